@@ -18,6 +18,7 @@ def build():
         b: int = Option("B", 1)
         c: bool = True
         nested: int = Option("S.X", 0)
+        _p: int = Option("PRIV", 3)      # a member with a single leading underscore is a member like any other (only dunder names are skipped)
 
     @datasetclass
     class Child(Parent):
@@ -44,7 +45,7 @@ def check(o1, o2, order):
             if "A" in o1:
                 msgs.append(f"{cls.__name__}({o1}) failed: {e!r}")
             continue
-        want = {"a": ("ds", o1["A"]), "b": o1.get("B", 1), "c": True, "nested": o1.get("S", {}).get("X", 0)}
+        want = {"a": ("ds", o1["A"]), "b": o1.get("B", 1), "c": True, "nested": o1.get("S", {}).get("X", 0), "_p": o1.get("PRIV", 3)}
         if cls is Child:
             want.update({"d": o1.get("EXTRA", {}).get("D", 0.5), "e": "const", "ab": o1.get("AB", 7)})
         for k, v in want.items():
@@ -52,12 +53,12 @@ def check(o1, o2, order):
                 msgs.append(f"{cls.__name__}({o1}).{k} = {getattr(inst, k)!r}, expected {v!r}")
         ks = cls.keys(o1)
         union = set()
-        for name in ("a", "b", "nested") + (("d", "ab") if cls is Child else ()):
-            m = {"a": ds, "b": Option_("B", 1), "nested": Option_("S.X", 0), "d": Option_("EXTRA.D", 0.5), "ab": Option_("AB", 7)}[name]
+        for name in ("a", "b", "nested", "_p") + (("d", "ab") if cls is Child else ()):
+            m = {"a": ds, "b": Option_("B", 1), "nested": Option_("S.X", 0), "d": Option_("EXTRA.D", 0.5), "ab": Option_("AB", 7), "_p": Option_("PRIV", 3)}[name]
             union |= m.keys(o1)
         if ks != union:
             msgs.append(f"{cls.__name__}.keys({o1}) = {sorted(ks)}, union over members = {sorted(union)} (order={order})")
-        if cls.explain(o1) != {k for name in ("a", "b", "nested") + (("d", "ab") if cls is Child else ()) for k in {"a": ds, "b": Option_("B", 1), "nested": Option_("S.X", 0), "d": Option_("EXTRA.D", 0.5), "ab": Option_("AB", 7)}[name].explain(o1)}:
+        if cls.explain(o1) != {k for name in ("a", "b", "nested", "_p") + (("d", "ab") if cls is Child else ()) for k in {"a": ds, "b": Option_("B", 1), "nested": Option_("S.X", 0), "d": Option_("EXTRA.D", 0.5), "ab": Option_("AB", 7), "_p": Option_("PRIV", 3)}[name].explain(o1)}:
             msgs.append(f"{cls.__name__}.explain({o1}) is not the union over members (order={order})")
         # the instance is a snapshot: mutating the dictionary it was built from afterwards changes neither ==, repr nor its members
         live = copy.deepcopy(o1)
@@ -73,7 +74,10 @@ def check(o1, o2, order):
             continue
         def restricted(o, keys):
             return {k: get_dotted_key(k, o) for k in keys if dotted_key_exists(k, o)}
-        same = restricted(o1, cls.keys(o1)) == restricted(o2, cls.keys(o2))
+        union2 = set()
+        for name in ("a", "b", "nested", "_p") + (("d", "ab") if cls is Child else ()):
+            union2 |= {"a": ds, "b": Option_("B", 1), "nested": Option_("S.X", 0), "d": Option_("EXTRA.D", 0.5), "ab": Option_("AB", 7), "_p": Option_("PRIV", 3)}[name].keys(o2)
+        same = restricted(o1, union) == restricted(o2, union2)     # the relevant options: what the MEMBERS read (not what the class under test reports)
         if (inst == other) != same:
             msgs.append(f"{cls.__name__}({o1}) == {cls.__name__}({o2}) is {inst == other}, but the relevant options are {'equal' if same else 'different'} (order={order})")
         for k in cls.keys(o1):
@@ -109,7 +113,7 @@ def Option_(*a, **k):
 
 
 DICTS = [{"A": 1}, {"A": 1, "B": 2}, {"A": 1, "S": {"X": 1}}, {"A": 1, "S": {"X": 2}}, {"A": 1, "EXTRA": {"D": 1.5}}, {"A": 1, "EXTRA": {"D": 2.5}},
-         {"A": 2, "UNUSED": 1}, {"A": 1, "UNUSED": 5}, {"A": 1, "AB": 3}, {"A": 1, "AB": 4}]
+         {"A": 2, "UNUSED": 1}, {"A": 1, "UNUSED": 5}, {"A": 1, "AB": 3}, {"A": 1, "AB": 4}, {"A": 1, "PRIV": 4}, {"A": 1, "PRIV": 5, "B": 2}]
 
 
 def replay(case):
